@@ -292,5 +292,19 @@ theorem tryCurSpec_inv (hc : CfgOK cfg) (h : GeomInv cfg s) {k : Kind} {L : Layo
     subst hs'
     exact ⟨h, SameShape.refl _, rfl, rfl, rfl, rfl⟩
 
+/-- a successful `tryCur` touches only the current chunk -/
+theorem tryCurSpec_other (hc : CfgOK cfg) (h : GeomInv cfg s) {k : Kind} {L : Layout} (hL : L.Valid)
+    {v : Nat × Nat} {s' : State} (hs : tryCurSpec cfg k s L = some (v, s')) {c : Nat} (hcur : s.cur = .chunk c)
+    {j : Nat} (hj : j ≠ c) : s'.chunks[j]? = s.chunks[j]? := by
+  cases k
+  · obtain ⟨i, ci, np, hcur', hi, hs', _⟩ := tryCurSpec_alloc_some hc h hL hs
+    rw [hcur] at hcur'; cases hcur'
+    subst hs'
+    unfold setCurPos
+    rw [hcur, setPos_getElem?, if_neg (fun hx => hj hx.symm)]
+  · obtain ⟨hs', _⟩ := tryCurSpec_prepare_some hc h hL hs
+    rw [hs']
+  · rw [tryCurSpec_range_state hs]
+
 end
 end Arena
